@@ -548,8 +548,16 @@ fn cmd_log(args: &[String]) {
         };
         let mut st = prng::Fnv::new();
         for (k, n) in &rep.stats.counters {
+            // allocator peak of the run: a measurement (like wall time), it moves by a few hundred bytes with the
+            // library's RandomState hash maps; no oracle or schedule decision reads it
+            if k.starts_with("meter.") {
+                continue;
+            }
             st.str(k);
             st.u64(*n);
+        }
+        if std::env::var_os("AMSIM_LOG_STATS").is_some() {
+            eprintln!("{idx} {:?}", rep.stats.counters);
         }
         println!(
             "{idx} {run_seed:016x} steps={} inter={:016x} state={:016x} stats={:016x} nt={:?} {v}",
